@@ -148,14 +148,26 @@ def same_ratio(a, b):
     return len(a) == 2 and len(b) == 2 and a[0] * b[1] == a[1] * b[0]
 
 
-def compare(op, exp, res, q, err):
-    """None if the real observation equals the edge's prescription, else a description."""
+def compare(op, exp, res, q, err, allowed=()):
+    """None if the real observation is what the edge prescribes, else (what, description).
+
+    For get_cell_size() and the DYNAMIC ratio the edge carries the set of values the property
+    allows (computed by TLC: TermCacheCore!AllowedCells / AllowedRatios); a value in the set that
+    differs from the model's own is *drift* (reported as ("drift", ...), not a violation)."""
     if err != exp["err"]:
         return "err", f"raised={err}, specified={exp['err']}"
     if op == "GetRatio":
         if not same_ratio(res, exp["res"]):
-            return "res", f"returned ratio {res[0]}/{res[1]}, specified {exp['res'][0]}/{exp['res'][1]}"
-    elif op in ("GetCellSize", "GetColors", "GetName"):
+            if any(same_ratio(res, a) for a in allowed):
+                return "drift", f"returned ratio {res}, model {exp['res']}, allowed {allowed}"
+            return "res", f"returned ratio {res[0]}/{res[1]}, specified {exp['res'][0]}/{exp['res'][1]}" + (
+                f" (allowed: {allowed})" if allowed else "")
+    elif op == "GetCellSize":
+        if list(res) != list(exp["res"]):
+            if any(list(res) == list(a) for a in allowed):
+                return "drift", f"returned {res}, model {exp['res']}, allowed {allowed}"
+            return "res", f"returned {res}, specified {exp['res']} (allowed: {allowed})"
+    elif op in ("GetColors", "GetName"):
         if list(res) != list(exp["res"]):
             return "res", f"returned {res}, specified {exp['res']}"
     if op in ("GetColors", "GetName"):
@@ -174,7 +186,7 @@ def env_of(view):
 
 
 def run_replay(lib, tours):
-    out = {"tours": 0, "ops": 0, "divergences": []}
+    out = {"tours": 0, "ops": 0, "divergences": [], "drift": 0}
     for tour in tours:
         out["tours"] += 1
         lib.reset(env_of(tour[0]["from"]))
@@ -182,12 +194,16 @@ def run_replay(lib, tours):
             op = e["op"]
             res, q, err = lib.do(op["op"], op["arg"])
             out["ops"] += 1
-            bad = compare(op["op"], op, res, q, err)
+            bad = compare(op["op"], op, res, q, err, e.get("allowed", ()))
+            if bad and bad[0] == "drift":
+                out["drift"] += 1
+                bad = None
             if bad:
                 out["divergences"].append({
                     "idx": i, "what": bad[0], "detail": bad[1], "op": op, "real": {"res": res, "q": q, "err": err},
                     "env": env_of(tour[0]["from"]),
                     "prefix": [x["op"] for x in tour[: i + 1]],
+                    "allowed_prefix": [x.get("allowed", []) for x in tour[: i + 1]],
                 })
                 break
         if len(out["divergences"]) >= 5:
